@@ -156,7 +156,8 @@ func buildServer(name, mode, dir string) (*srv, error) {
 	}
 	switch mode {
 	case "userpass":
-		m["auth"] = "userpass:" + c17User + ":" + c17Pass
+		// with the optional upload-only ("vivify") password
+		m["auth"] = "userpass:" + c17User + ":" + c17Pass + ":vivify=" + c17Vivify
 	case "token":
 		m["auth"] = "token:" + auth.Token()
 	default:
@@ -230,12 +231,35 @@ const (
 	credOtherMode  cred = "userpass-credentials-in-token-mode"
 	credBearer     cred = "bearer-garbage"
 	credRight      cred = "right"
+	// the vivify password grants upload, stat, get and discovery only (auth.OpVivify)
+	credVivify cred = "basic-vivify-password"
 )
+
+const c17Vivify = "c17-vivify-only"
+
+// vivifyStrict: the vivify password may pass on the blob handlers (patterns ending in
+// /camli/: get, stat, upload) except for removal and enumeration; everything else
+// (auth.Handler = OpAll for search, signing, status, ui, help, importer, sync, setup)
+// must refuse it.
+func vivifyStrict(pattern, family, method string) bool {
+	if strings.HasSuffix(pattern, "/camli/") {
+		switch family {
+		case "remove":
+			return method == "POST"
+		}
+		// (enumerate-blobs only asks for auth.OpGet, which the vivify password has)
+		return false
+	}
+	return true
+}
 
 func (s *srv) unauthCreds() []cred {
 	c := []cred{credNone, credBasicWrong, credBasicEmpty, credBasicPref, credTokenWrong, credTokenPref, credWSWrong, credBearer}
 	if s.Mode == "token" {
 		c = append(c, credOtherMode)
+	}
+	if s.Mode == "userpass" {
+		c = append(c, credVivify)
 	}
 	return c
 }
@@ -420,6 +444,8 @@ func (s *srv) send(q areq, timeout time.Duration) (r aresp) {
 		req.Header.Set("Connection", "Upgrade")
 	case credOtherMode:
 		req.SetBasicAuth(c17User, c17Pass)
+	case credVivify:
+		req.SetBasicAuth(c17User, c17Vivify)
 	case credBearer:
 		req.Header.Set("Authorization", "Bearer "+c17Pass)
 	case credRight:
@@ -435,6 +461,12 @@ func (s *srv) send(q areq, timeout time.Duration) (r aresp) {
 		req = req.WithContext(ctx)
 	}
 	_, r.Pattern = s.mux.Handler(req)
+	if q.Cred == credVivify && !vivifyStrict(r.Pattern, q.Family, q.Method) {
+		// the vivify password is a valid credential for this handler: not sent (it would
+		// legitimately upload / read), judged as trivially fine
+		r.Status = 401
+		return r
+	}
 	serve := func() (out aresp) {
 		out.Pattern = r.Pattern
 		defer func() {
